@@ -11,10 +11,13 @@
 //!   hostq new ip= bd= un= ud= um= rf= rs= to=<ms|-> cd=<ms> rq=<0|1> q=<n> now=<ms>
 //!   hostq burst <ev>|<ev>|… now=<ms> => n1:[e;e;…] n2:[…]        (`-` when nothing happened)
 //!   hostq adv <ms> now=<ms> => n1:[…]
+//!   hostq cancel off=<0|1> now=<ms> => n1:[…] w=<ms>     `AppClient::cancel()` between two bursts (final Offline
+//!                                                          delivered / withheld), w = ms until `run()` had returned;
+//!                                                          every later burst must observe `-`
 //! `<ev>` is a `host` request without the leading `host ` and without `now=`:
 //! `ev <node> nbirth|ndeath|ndata|dbirth|ddeath|ddata k=v…`, `inv <node>`, `offline`, `online`.
 use crate::common::*;
-use crate::host::{cfg_random, displaced, session, PMsg, Sess};
+use crate::host::{cfg_random, displaced, session, FinalOffline, PMsg, Sess, HOST_STOP_BOUND_MS};
 use std::collections::{BTreeMap, BTreeSet};
 
 fn kv<'a>(w: &'a [&'a str], key: &str) -> Option<&'a str> {
@@ -33,6 +36,11 @@ pub struct QSess {
     host_online: bool,
     known: BTreeSet<String>,
     ip: bool,
+    /// fault-free cases (`sess.clean`), per node: the sequence numbers of the current publisher session that have
+    /// arrived (value: does applying the message call a store's birth / data method) and how many such calls the
+    /// stores have seen since the session's NBIRTH was applied
+    arrived: BTreeMap<String, BTreeMap<u64, bool>>,
+    applied: BTreeMap<String, u64>,
 }
 
 impl QSess {
@@ -40,7 +48,7 @@ impl QSess {
         let mut sess = Sess::new(op);
         sess.burst_mode = true;
         let w: Vec<&str> = op.split(' ').collect();
-        QSess { sess, host_online: true, known: BTreeSet::new(), ip: kv(&w, "ip") == Some("1") }
+        QSess { sess, host_online: true, known: BTreeSet::new(), ip: kv(&w, "ip") == Some("1"), arrived: BTreeMap::new(), applied: BTreeMap::new() }
     }
 
     /// execute one request line (without its ` => …` part) on the real code; returns the complete
@@ -66,15 +74,20 @@ impl QSess {
                                 "nbirth" => {
                                     self.sess.note_nbirth(&n, id, ts);
                                     self.known.insert(n.clone());
+                                    self.arrived.insert(n.clone(), BTreeMap::new());
                                     last_is_death.insert(n, false);
                                 }
                                 "ndeath" => {
+                                    self.arrived.remove(&n);
                                     if self.known.contains(&n) {
                                         last_is_death.insert(n, true);
                                     }
                                 }
-                                _ => {
+                                k => {
                                     self.sess.note_msg(&n, id, ts);
+                                    if let (Some(a), Some(seq)) = (self.arrived.get_mut(&n), kv(&ew, "seq").and_then(|x| x.parse::<u64>().ok())) {
+                                        a.insert(seq, k != "ddeath");
+                                    }
                                     self.known.insert(n);
                                 }
                             }
@@ -102,6 +115,9 @@ impl QSess {
                 // C06 second sentence at the end of the burst (schedule-independent: the queue is FIFO,
                 // so nothing handled after the last NDEATH / Offline of a node can birth it again)
                 for (n, death) in last_is_death {
+                    if self.sess.cancelled {
+                        break; // the host has been stopped: nothing is marked, nothing is applied
+                    }
                     if death && (self.sess.node_birthed(&n) || !self.sess.birthed_devices(&n).is_empty()) {
                         let coherent = self.sess.birth_ts_of(&n) <= now;
                         out.fail(
@@ -111,12 +127,58 @@ impl QSess {
                         );
                     }
                 }
+                // C05, last sentence, on a FAULT-FREE history (every message delivered once, sessions of fewer than 256
+                // messages, no timer expiry): when the burst has been handled, every message whose predecessors have
+                // all arrived has been applied - none is withheld or silently dropped
+                if self.sess.clean && !self.sess.cancelled {
+                    for (n, e) in &effs {
+                        if e.starts_with("nodeBirth(") && e.ends_with(",1)") {
+                            self.applied.insert(n.clone(), 0);
+                        } else if e.starts_with("nodeData(") || e.starts_with("devData(") || e.starts_with("devBirth(") {
+                            *self.applied.entry(n.clone()).or_default() += 1;
+                        }
+                    }
+                    for (n, a) in &self.arrived {
+                        let mut mex = 1u64;
+                        while a.contains_key(&mex) {
+                            mex += 1;
+                        }
+                        let want = a.iter().filter(|(s, data)| **s < mex && **data).count() as u64;
+                        let got = self.applied.get(n).copied().unwrap_or(0);
+                        if got != want && mex <= 255 {
+                            out.fail(
+                                "C05:prompt-apply",
+                                "clean-burst",
+                                format!("{} => {:?}: of node {}'s current session all of seq 1..{} have arrived, {} store calls expected since its NBIRTH, {} seen", req, effs, n, mex - 1, want, got),
+                            );
+                            self.applied.insert(n.clone(), want); // report once
+                        }
+                    }
+                }
                 format!("{} => {}", req, render(&Sess::canon_by_node(&effs)))
             }
             "adv" => {
                 self.sess.run_adv(now, w[2].parse().unwrap());
                 let effs = self.sess.observe_burst(req, now, out);
                 format!("{} => {}", req, render(&Sess::canon_by_node(&effs)))
+            }
+            "cancel" => {
+                let fin = match kv(&w, "off") {
+                    Some("1") => FinalOffline::AfterStop,
+                    Some("0") => FinalOffline::Withheld,
+                    x => panic!("bad cancel off={:?}", x),
+                };
+                if self.sess.cancelled {
+                    return format!("{} => -", req);
+                }
+                let rep = self.sess.cancel(req, now, fin, HOST_STOP_BOUND_MS + 5, true, out);
+                self.sess.judge_run_returns(req, &rep, fin, out);
+                format!(
+                    "{} => {} w={}",
+                    req,
+                    render(&Sess::canon_by_node(&rep.effects)),
+                    rep.returned_after.map(|x| x.to_string()).unwrap_or("never".into())
+                )
             }
             x => panic!("bad hostq op {}", x),
         }
@@ -149,6 +211,15 @@ impl<'a> QCase<'a> {
         self.bursts += 1;
         self.now += 1;
         line
+    }
+    /// `AppClient::cancel()` between two bursts; the clock moves on by the request's millisecond plus the wait
+    fn cancel(&mut self, off: u64) {
+        let req = format!("hostq cancel off={} now={}", off, self.now);
+        let line = self.q.exec(&req, self.out);
+        let w = line.rsplit_once(" w=").and_then(|x| x.1.parse::<u64>().ok());
+        self.out.line(&line, "ok");
+        self.out.count(if off == 1 { "cancel:offline-delivered" } else { "cancel:offline-withheld" });
+        self.now += 1 + w.unwrap_or(if line.ends_with("=> -") { 0 } else { HOST_STOP_BOUND_MS + 5 });
     }
     fn adv(&mut self, ms: u64) {
         let req = format!("hostq adv {} now={}", ms, self.now);
@@ -250,6 +321,8 @@ fn random_case(out: &mut Out, rng: &mut Rng, clean: bool) {
     let mut fresh_node = 10u64;
     let mut old: Vec<(String, String)> = vec![];
     let bursts = rng.range(2, 9);
+    // one case in three is cancelled: after its last burst, or somewhere before
+    let cancel_after = if rng.chance(1, 3) { if rng.chance(2, 3) { bursts - 1 } else { rng.below(bursts) } } else { u64::MAX };
     for b in 0..bursts {
         let len = rng.range(2, 12) as usize;
         let mut evs: Vec<String> = vec![];
@@ -327,7 +400,9 @@ fn random_case(out: &mut Out, rng: &mut Rng, clean: bool) {
                 }
                 94..=96 => {
                     if let Some(mut m) = gens[k].todo.pop() {
-                        m.body = m.body.replace("ans=ok", if rng.chance(1, 2) { "ans=inv" } else { "ans=unk" });
+                        if !m.body.contains(" m=0") {
+                            m.body = m.body.replace("ans=ok", if rng.chance(1, 2) { "ans=inv" } else { "ans=unk" });
+                        }
                         evs.push(format!("ev {} {}", name, m.body));
                         stats.push("in:store-reject");
                     }
@@ -363,13 +438,18 @@ fn random_case(out: &mut Out, rng: &mut Rng, clean: bool) {
             };
             c.adv(ms);
         }
+        // the application is stopped after this burst (gaps may be open, timers armed, the host offline); the
+        // bursts that follow meet a host that is gone
+        if b == cancel_after {
+            c.cancel(if rng.chance(1, 8) { 0 } else { 1 });
+        }
     }
     c.out.count(if clean { "case:clean" } else if compressed { "case:faulty-ordered" } else { "case:faulty-free-timestamps" });
     let qs = cfg.split(' ').find(|t| t.starts_with("q=")).unwrap().to_string();
     c.out.count(&format!("case:{}", qs));
 }
 
-const QSYMS: [&str; 10] = ["B", "D", "G", "X", "Xm", "I", "OFF", "ON", "DB", "DD"];
+const QSYMS: [&str; 11] = ["B", "D", "G", "X", "Xm", "I", "OFF", "ON", "DB", "DD", "De"];
 
 /// one node, one device, small alphabet: an optional settled prefix burst, then ONE burst
 fn small_case(out: &mut Out, syms: &[usize], q: u64, prefix: bool) {
@@ -405,6 +485,11 @@ fn small_case(out: &mut Out, syms: &[usize], q: u64, prefix: bool) {
                 "DD" => {
                     *pubseq = nx;
                     format!("ev n1 ddata dev=1 seq={} ts={} id={} ans=ok", nx, now, id)
+                }
+                // the next message in sequence, a payload without metrics
+                "De" => {
+                    *pubseq = nx;
+                    format!("ev n1 ndata seq={} ts={} id={} ans=ok m=0", nx, now, id)
                 }
                 _ => unreachable!(),
             });
@@ -458,9 +543,55 @@ fn scripted(out: &mut Out) {
         c.adv(3);
         c.out.count("scripted");
     }
+    // (7) cancel between bursts: with a gap open and the reorder timer armed (it fires while the host waits for the
+    // final Offline that never comes), with the final Offline delivered, on an offline host; the bursts behind meet a
+    // host that is gone
+    for (q, variant) in [(1u64, "gap-withheld"), (2, "gap-delivered"), (1024, "host-offline"), (1, "quiet-withheld")] {
+        let cfg = format!("ip=1 bd=1 un=1 ud=1 um=1 rf=1 rs=1 to=100 cd=0 rq=1 q={}", q);
+        let mut c = QCase::begin(out, &cfg, t0);
+        c.out.set_desc(format!("scripted cancel {}", variant));
+        c.burst(&[format!("ev n1 nbirth ts={} bd=3 id=1 ans=ok", t0), format!("ev n1 dbirth dev=1 seq=1 ts={} id=2 ans=ok", t0)]);
+        match variant {
+            "gap-withheld" | "gap-delivered" => {
+                c.burst(&[format!("ev n1 ndata seq=3 ts={} id=4 ans=ok", t0 + 1), format!("ev n1 ndata seq=4 ts={} id=5 ans=ok", t0 + 1)]);
+            }
+            "host-offline" => {
+                c.burst(&["offline".to_string(), format!("ev n1 ndata seq=2 ts={} id=3 ans=ok", t0 + 1)]);
+            }
+            _ => {}
+        }
+        c.cancel(if variant == "gap-delivered" { 1 } else { 0 });
+        c.burst(&[format!("ev n1 ndata seq=2 ts={} id=3 ans=ok", t0 + 1), format!("ev n2 ndata seq=1 ts={} id=9 ans=ok", t0 + 1), "offline".to_string()]);
+        c.adv(101);
+        c.cancel(1);
+        c.out.count("scripted");
+    }
+    // (6) payloads WITHOUT METRICS inside a burst (legal: seq and timestamp only): they take their sequence number
+    // like any other message, so a fault-free burst stays fault-free (no NCMD, nothing left waiting when the reorder
+    // timeout passes)
+    for q in [1u64, 2, 1024] {
+        let cfg = format!("ip=0 bd=1 un=1 ud=1 um=1 rf=1 rs=1 to=100 cd=0 rq=1 q={}", q);
+        let mut c = QCase::begin(out, &cfg, t0);
+        c.out.set_desc("clean scripted no-metrics".into());
+        c.q.sess.ordered_ids = true;
+        c.q.sess.clean = true;
+        c.burst(&[
+            format!("ev n1 nbirth ts={} bd=3 id=1 ans=ok", t0),
+            format!("ev n1 ndata seq=1 ts={} id=2 ans=ok m=0", t0),
+            format!("ev n1 dbirth dev=1 seq=2 ts={} id=3 ans=ok m=0", t0),
+            format!("ev n1 ddata dev=1 seq=3 ts={} id=4 ans=ok", t0),
+            format!("ev n1 ddata dev=1 seq=5 ts={} id=6 ans=ok", t0),
+            format!("ev n1 ddata dev=1 seq=4 ts={} id=5 ans=ok m=0", t0),
+            format!("ev n1 ddeath dev=1 seq=6 ts={} id=7", t0),
+            format!("ev n1 ndata seq=7 ts={} id=8 ans=ok", t0),
+        ]);
+        c.adv(101);
+        c.burst(&[format!("ev n1 ndata seq=8 ts={} id=9 ans=ok m=0", t0 + 102), format!("ev n1 ndata seq=9 ts={} id=10 ans=ok", t0 + 102)]);
+        c.out.count("scripted");
+    }
 }
 
-pub const RULE: &str = "bursts through the real Application without quiescence in between (paused tokio time, mock clock frozen during a burst, recording stores; every event of a burst is handed to the event loop before anything is handled): (a) random cases, configuration as component host incl. node queue sizes 1/2/1024, 2-9 bursts of 2-12 events for 1-3 nodes: valid sessions with bounded reordering, duplicates, NDEATHs matching/mismatching, data for a never-seen node immediately followed by its NBIRTH, invalid payloads, host offline/online inside a burst, replayed NBIRTHs, unknown devices, store rejections, late old messages, between bursts sometimes time advanced to just before/after the reorder timeout; (b) fault-free bursts (oracle: no NCMD); (c) every burst of length <= 3 over a 10-symbol single-node alphabet, fresh and after a settled NBIRTH+DBIRTH, queue sizes 1 and 2; (d) scripted witnesses. Each line carries the per-node effect lists; the model answers whether some schedule of Model/HostQ produces exactly them. Non-trivial = a case with a burst of at least two events; distinct = distinct request-line sequences (hashed).";
+pub const RULE: &str = "bursts through the real Application without quiescence in between (paused tokio time, mock clock frozen during a burst, recording stores; every event of a burst is handed to the event loop before anything is handled): (a) random cases, configuration as component host incl. node queue sizes 1/2/1024, 2-9 bursts of 2-12 events for 1-3 nodes: valid sessions with bounded reordering, duplicates, NDEATHs matching/mismatching, data for a never-seen node immediately followed by its NBIRTH, invalid payloads, host offline/online inside a burst, replayed NBIRTHs, unknown devices, store rejections, late old messages, between bursts sometimes time advanced to just before/after the reorder timeout; (b) fault-free bursts (oracle: no NCMD); (c) every burst of length <= 3 over an 11-symbol single-node alphabet (incl. a payload without metrics), fresh and after a settled NBIRTH+DBIRTH, queue sizes 1 and 2; (d) scripted witnesses; payloads without metrics (`m=0`) occur in every generated session (one message in eight), in the exhaustive alphabet and in a scripted fault-free burst (oracle C05:prompt-apply/clean-burst: on a fault-free history every message whose predecessors have arrived has been applied when the burst has been handled); one random case in three is cancelled (`AppClient::cancel()`) after its last burst or earlier, final Offline delivered or withheld, the bursts behind the cancel must observe nothing (C20:host-* clauses as in component host). Each line carries the per-node effect lists; the model answers whether some schedule of Model/HostQ produces exactly them. Non-trivial = a case with a burst of at least two events; distinct = distinct request-line sequences (hashed).";
 
 pub fn run(args: &Args, out: &mut Out) -> &'static str {
     let mut rng = Rng::new(args.seed);
@@ -493,7 +624,7 @@ pub fn run(args: &Args, out: &mut Out) -> &'static str {
             }
         }
     }
-    out.exhaustive.push(format!("all bursts of length 0..={} over a 10-symbol single-node alphabet x queue size 1,2 x (fresh | after a settled NBIRTH+DBIRTH)", l));
+    out.exhaustive.push(format!("all bursts of length 0..={} over an 11-symbol single-node alphabet x queue size 1,2 x (fresh | after a settled NBIRTH+DBIRTH)", l));
     for _ in 0..(if th { 400 } else { 40 }) {
         random_case(out, &mut rng, true);
     }
